@@ -8,6 +8,7 @@ import (
 
 	"github.com/scionproto/scion/pkg/addr"
 	seg "github.com/scionproto/scion/pkg/segment"
+	"github.com/scionproto/scion/pkg/slayers"
 	"github.com/scionproto/scion/private/topology"
 
 	"verif/internal/evid"
@@ -85,11 +86,11 @@ type hopKey struct {
 func TestC22(t *testing.T) {
 	rec := evid.New("C22", "rapid: two chains of 1-31 ASes below a core AS with 0-4 peering links between drawn chain positions, 1-2 routers per AS, random keys; beaconed with the real extender; every path of the real combinator between all AS pairs "+
 		"(<= 12 per pair). Oracle: per hop field, reference-traversal accumulator (ref.HopBetas on the combinator's initial SegIDs) == construction-time accumulator from the registered segments (independent XOR chain); "+
-		"plus acceptance by every real router. Non-trivial: shortcut or peering path, or a segment of >= 8 hops.")
+		"plus acceptance by every real router, also of the answer a router raises right after a segment change (traceroute request flagged there) on its way back. Non-trivial: shortcut or peering path, or a segment of >= 8 hops.")
 	defer rec.Flush(t)
 	rec.Assume("MAC values are sampled (random keys/timestamps), not symbolic: a defect that shows only for particular first-two-MAC-byte values has probability ~2^-16 per hop of being hit",
 		"segment length bounded by 32 hop fields per segment (64 per path)")
-	rec.Require("shortcut", "peering", "against_consdir_segment", "consdir_segment", "long_segment", "full_updown")
+	rec.Require("shortcut", "peering", "against_consdir_segment", "consdir_segment", "long_segment", "full_updown", "answer_after_segment_change")
 	rapid.Check(t, func(rt *rapid.T) {
 		topo := genChains(rt)
 		n, err := netsim.Build(topo, false, nil)
@@ -145,6 +146,46 @@ func TestC22(t *testing.T) {
 			wk := n.Sim.Walk(pc.src, uint16(pc.p.Metadata.Interfaces[0].ID), srcUDP(o), b)
 			if !wk.Delivered || wk.DeliverIA != pc.dst {
 				rt.Fatalf("%s -> %s over %v: accumulators match the reference but a router rejected the packet: %s\n%s", pc.src, pc.dst, metaSeq(pc.p), wk.Stopped, dumpWalk(wk))
+			}
+			// An answer raised by a router after it switched segments travels the reverse way with the same
+			// accumulators: a traceroute request flagged for the egress side of the first hop of a later
+			// segment must be answered and the answer must pass every router back to the source.
+			if v.NumINF > 1 {
+				s := rapid.IntRange(1, v.NumINF-1).Draw(rt, "answerAfterSegmentChange")
+				h := 0
+				for i := 0; i < s; i++ {
+					h += int(v.SegLen[i])
+				}
+				hf, _ := pc.raw.GetHopField(h)
+				out := hf.ConsIngress
+				if v.Info(b, s).ConsDir {
+					hf.EgressRouterAlert = true
+					out = hf.ConsEgress
+				} else {
+					hf.IngressRouterAlert = true
+				}
+				_ = pc.raw.SetHopField(hf, h)
+				o2 := netsim.DefaultOpts()
+				o2.SCMPHdr = &slayers.SCMP{TypeCode: slayers.CreateSCMPTypeCode(slayers.SCMPTypeTracerouteRequest, 0)}
+				o2.SCMP = &slayers.SCMPTraceroute{Identifier: o2.SrcPort, Sequence: 1}
+				o2.Payload = nil
+				b2, err := netsim.BuildPacket(pc.src, pc.dst, pc.raw, o2)
+				if err != nil {
+					rt.Fatalf("build: %v", err)
+				}
+				w2 := n.Sim.Walk(pc.src, uint16(pc.p.Metadata.Interfaces[0].ID), srcUDP(o2), b2)
+				if out == 0 {
+					// the later segment consists of the destination's (peering) hop field only: nothing to answer
+					if !w2.Delivered {
+						rt.Fatalf("%s -> %s over %v: flag on a hop field without egress interface: not delivered: %s", pc.src, pc.dst, metaSeq(pc.p), w2.Stopped)
+					}
+				} else if w2.SlowPath == nil || !w2.ReplyDelivered || w2.ReplyIA != pc.src {
+					rt.Fatalf("%s -> %s over %v: traceroute request flagged at hop field %d (first of segment %d): answered=%v, answer back at the source=%v (%s)\n%s",
+						pc.src, pc.dst, metaSeq(pc.p), h, s, w2.SlowPath != nil, w2.ReplyDelivered && w2.ReplyIA == pc.src, w2.ReplyStopped, dumpWalk(w2))
+				}
+				if out != 0 {
+					labels = append(labels, "answer_after_segment_change")
+				}
 			}
 			for i := 0; i < v.NumINF; i++ {
 				if v.Info(b, i).ConsDir {
